@@ -73,6 +73,14 @@ func prepare(p *prog) (*execution, error) {
 		return nil, err
 	}
 	x.ast = ast
+	// a debugged thread is not always among the first threads of a host:
+	// every other execution draws its ids where a longer-running host would
+	// be (ids are handed out by counting up)
+	if burn := []int{0, 0, 0, 0, 255, 996, 997, 998, 999, 1023, 4095, 65534}[core.Hash64(p.src)%12]; burn > 0 {
+		for i := 0; i < burn; i++ {
+			x.erp.NewThreadID()
+		}
+	}
 	x.tid = x.erp.NewThreadID()
 	return x, nil
 }
